@@ -982,6 +982,20 @@ static std::string run_op(const std::vector<std::string>& a)
     std::string l = e ? read_fd(atoi(e)) : std::string();
     return "{\"r\":\"ok\",\"log\":" + jstr(l) + "}";
   }
+  if (op == "mkfile" || op == "rmfile")
+  {
+    std::string path = hexdec(a[1]);
+    unlink(path.c_str());
+    if (op == "mkfile")
+    {
+      std::string data = a.size() > 2 ? hexdec(a[2]) : std::string();
+      FILE * f = fopen(path.c_str(), "wb");
+      if (!f) return "{\"r\":\"ioerr\"}";
+      fwrite(data.data(), 1, data.size(), f);
+      fclose(f);
+    }
+    return "{\"r\":\"ok\"}";
+  }
   if (op == "isolate") { g_isolate = true; return "{\"r\":\"ok\"}"; }
   if (op == "deinit") { bloc_deinit_plugins(); return "{\"r\":\"ok\"}"; }
   if (op == "leakcheck")
